@@ -37,6 +37,7 @@ type CarrierPlan struct {
 	Refuse int     `json:"refuse,omitempty"` // the forwarder resets this many dial attempts first
 	HoldMs int     `json:"hold_ms,omitempty"` // extras: how long the client end stays
 	DelayMs int    `json:"delay_ms,omitempty"` // the pool is empty for so long before this carrier can be had
+	GapClass string `json:"gap_class,omitempty"` // the model's class of the gap before this carrier (documentation)
 	Flood   int    `json:"flood,omitempty"`    // after this carrier's preamble and before its first packet, so many other carriers attach (each with its own ClientID)
 	Other  int     `json:"other,omitempty"`  // extras with Pres "id": present the ClientID of this session (index)
 }
@@ -47,6 +48,10 @@ type SessionPlan struct {
 	Bad      string        `json:"bad,omitempty"` // every carrier presents this instead of the token: session must never be accepted
 	Carriers []CarrierPlan `json:"carriers"`
 	DelayMs  int           `json:"delay_ms,omitempty"`
+	// ResumeAfterMs > 0: both writers stop after the first half of their stream
+	// and go on so long after the scenario started (the session is silent in
+	// between, e.g. across a planned gap without any carrier).
+	ResumeAfterMs int `json:"resume_after_ms,omitempty"`
 }
 
 type Scenario struct {
@@ -348,6 +353,8 @@ type scenarioRun struct {
 	opos    int
 	oindex  map[string]int
 	links   []*Link
+	t0      time.Time
+	endCh   chan struct{}
 	lastFault time.Time
 	faults  int32
 	dials   int32
@@ -375,6 +382,7 @@ type session struct {
 	convSet int32
 	convFixed bool
 	failed  int32 // an application read/write returned an error: the scenario cannot complete any more
+	paused  int32 // writers in their planned pause
 
 	got    [2]int64 // bytes verified: up (at the server), down (at the client)
 	done   [2]int32
@@ -724,7 +732,7 @@ func (s *session) dialContext(ctx context.Context) (net.PacketConn, error) {
 		s.cmu.Lock()
 		s.cur = c
 		s.cmu.Unlock()
-		go c.staleness(sr.stale, s.complete)
+		go c.staleness(sr.stale, func() bool { return s.complete() || atomic.LoadInt32(&s.paused) > 0 })
 		return &encapConn{c: c}, nil
 	}
 }
@@ -749,13 +757,34 @@ func (s *session) writeStream(w io.Writer, dir string, total int64) {
 	key := s.streamKey(dir)
 	var off int64
 	buf := make([]byte, 64*1024)
+	pauseAt := int64(-1)
+	if s.plan.ResumeAfterMs > 0 {
+		pauseAt = total / 2
+	}
 	for off < total {
+		if pauseAt >= 0 && off >= pauseAt {
+			pauseAt = -1
+			atomic.AddInt32(&s.paused, 1)
+			if d := time.Until(s.sc.t0.Add(time.Duration(s.plan.ResumeAfterMs) * time.Millisecond)); d > 0 {
+				select {
+				case <-time.After(d):
+				case <-s.sc.endCh:
+				}
+			}
+			atomic.AddInt32(&s.paused, -1)
+		}
 		n := int64(1 + rng.Intn(len(buf)))
 		if rng.Intn(4) == 0 {
 			n = int64(1 + rng.Intn(64))
 		}
 		if n > total-off {
 			n = total - off
+		}
+		if pauseAt >= 0 && off+n > pauseAt {
+			n = pauseAt - off
+			if n == 0 {
+				continue
+			}
 		}
 		vh.Fill(buf[:n], key, uint64(off))
 		if _, err := w.Write(buf[:n]); err != nil {
@@ -792,6 +821,30 @@ func (s *session) readStream(r net.Conn, dir string, total int64) {
 						break
 					}
 				}
+			}
+			if !ok {
+				// diagnosis only: whose bytes are these?  (same offset, any session and direction of the scenario)
+				like := "nobody's"
+				for _, o := range s.sc.sess {
+					for di2, k2 := range o.key {
+						m := n
+						if m > 4096 {
+							m = 4096
+						}
+						vh.Fill(want[:m], k2, uint64(off))
+						same := true
+						for i := 0; i < m; i++ {
+							if buf[i] != want[i] {
+								same = false
+								break
+							}
+						}
+						if same {
+							like = fmt.Sprintf("S%d/%s", o.idx, []string{"up", "down"}[di2])
+						}
+					}
+				}
+				s.sc.rec.Struct("app.mismatch", "s", s.idx, "d", dir, "off", int(off), "n", n, "like", like)
 			}
 			s.sc.rec.Run("app.read", fmt.Sprintf("app.read/%d/%s", s.idx, dir), n, ok, "s", s.idx, "d", dir, "off", int(off))
 			off += int64(n)
@@ -1036,7 +1089,7 @@ func (r *Rig) Run(sc *Scenario, index int) *Result {
 		defer zeroffMu.Unlock()
 	}
 	t0 := time.Now()
-	sr := &scenarioRun{rig: r, sc: sc, rec: NewRecorder(), rng: vh.NewRng(sc.Seed), oindex: map[string]int{}, stale: r.Stale}
+	sr := &scenarioRun{rig: r, sc: sc, rec: NewRecorder(), rng: vh.NewRng(sc.Seed), oindex: map[string]int{}, stale: r.Stale, t0: t0, endCh: make(chan struct{})}
 	sr.ocond = sync.NewCond(&sr.omu)
 	if sc.StaleMs > 0 {
 		sr.stale = time.Duration(sc.StaleMs) * time.Millisecond
@@ -1180,6 +1233,7 @@ func (r *Rig) Run(sc *Scenario, index int) *Result {
 		sr.rec.Struct("stall", "state", st)
 	}
 	atomic.StoreInt32(&sr.ending, 1)
+	close(sr.endCh)
 	sr.omu.Lock()
 	sr.ocond.Broadcast()
 	sr.omu.Unlock()
